@@ -670,6 +670,27 @@ func l1Generate(c *lib.Ctx, rng *rand.Rand) []l1Scenario {
 		}
 		scs = append(scs, sc)
 	}
+	// a sender that restarts re-sends its init segments in the middle of the run
+	for k, keys := range [][]string{{"v500", "a128"}, {"v500", "v800", "a128"}} {
+		sc := l1Scenario{Kind: 4, Tracks: tracksOf(keys...), Tsbd: 30, Gen: "resent-init"}
+		for i := range keys {
+			sc.Ups = append(sc.Ups, l1Up{Init: true, Track: i})
+		}
+		for m := 1; m <= 9; m++ {
+			if m == 4 {
+				sc.Ups = append(sc.Ups, l1Up{Init: true, Track: k}) // one track re-sends
+			}
+			if m == 7 {
+				for i := range keys { // all tracks re-send
+					sc.Ups = append(sc.Ups, l1Up{Init: true, Track: i})
+				}
+			}
+			for t := range keys {
+				sc.Ups = append(sc.Ups, l1Up{Track: t, Seq: int64(m)})
+			}
+		}
+		scs = append(scs, sc)
+	}
 	// random skewed runs with gaps, duplicates, a jump
 	for i := 0; i < 40*mult; i++ {
 		T := 2 + rng.Intn(2)
@@ -837,10 +858,15 @@ func l1Oracle(c *lib.Ctx, id string, sc l1Scenario, obs []l1Obs) {
 	startedBefore := map[int]bool{}
 	truth := map[string]map[int64][2]int64{} // track name -> stored number -> (start time, duration) of the uploaded segment
 	staleReported := false
+	regSeen := map[int]bool{}
 	registered := 0
 	for i, o := range obs {
 		u := sc.Ups[i]
-		if u.Init {
+		if u.Init && regSeen[u.Track] {
+			pre["resent_init"] = true
+		}
+		if u.Init && !regSeen[u.Track] {
+			regSeen[u.Track] = true
 			registered++
 		}
 		if o.Died != "" {
@@ -972,6 +998,19 @@ func l1Oracle(c *lib.Ctx, id string, sc l1Scenario, obs []l1Obs) {
 				return
 			}
 			lastPub = p.Last
+			// every registered track is one Representation of the MPD, no id twice
+			repCount := map[string]int{}
+			for _, reps := range p.Reps {
+				for _, r := range reps {
+					repCount[r]++
+				}
+			}
+			for r, n := range repCount {
+				if n != 1 {
+					fail(i, "mpd:duplicate-representation", fmt.Sprintf("the MPD has %d Representations with id %q", n, r))
+					return
+				}
+			}
 			if o.Started && registered > int(o.NrTr) {
 				pre["late_track"] = true
 			}
